@@ -117,13 +117,13 @@ class TVTB(nengo.Network):
             elif unbind_left:
                 nengo.Connection(
                     self.input_left,
-                    self.mat,
+                    self.vec,
                     transform=inversion_matrix(dimensions),
                     synapse=None,
                 )
                 nengo.Connection(
                     self.input_right,
-                    self.vec,
+                    self.mat,
                     synapse=None,
                 )
             else:
